@@ -18,7 +18,8 @@ import (
 	"verif/internal/ev"
 )
 
-var cfgLists = [][]byte{{0xfe, 0x0d, 1}, {0xfe, 0x0d, 2, 2, 2, 2, 2, 2, 2}}
+// lengths 4 and 8: not multiples of 3, so that the base64 padding matters
+var cfgLists = [][]byte{{0xfe, 0x0d, 1, 1}, {0xfe, 0x0d, 2, 2, 2, 2, 2, 2}}
 
 func b64(i int) string { return base64.StdEncoding.EncodeToString(cfgLists[i]) }
 
@@ -33,6 +34,7 @@ func r1Values() []string {
 		`ech="` + b64(0) + `" alpn="h3,h2" ech="b2xk"`, // two entries, the last one is not current
 		`alpn="h2" ech="` + b64(0) + `"`,               // already current for list 0
 		`ech=` + b64(1) + ` no-default-alpn`,           // unquoted, already current for list 1
+		"alpn=\"h2\th3\"  ech=\"b2xk\" port=8443",      // a tab inside a quoted value, two blanks between parameters
 	}
 }
 
@@ -90,8 +92,32 @@ type scenario struct {
 }
 
 // tokens of a parameter string, ech entries separated out
+// quote-aware tokens: blanks and tabs separate parameters only outside double quotes (RFC 9460 presentation format)
+func tokens(v string) []string {
+	var out []string
+	cur, inq := "", false
+	for _, c := range v {
+		switch {
+		case c == '"':
+			inq = !inq
+			cur += string(c)
+		case (c == ' ' || c == '\t') && !inq:
+			if cur != "" {
+				out = append(out, cur)
+				cur = ""
+			}
+		default:
+			cur += string(c)
+		}
+	}
+	if cur != "" {
+		out = append(out, cur)
+	}
+	return out
+}
+
 func splitValue(v string) (others []string, echs []string) {
-	for _, t := range strings.Fields(v) {
+	for _, t := range tokens(v) {
 		if k, val, ok := strings.Cut(t, "="); ok && k == "ech" {
 			echs = append(echs, strings.Trim(val, `"`))
 		} else {
@@ -253,8 +279,8 @@ func dupKindAny(ts []int) string {
 }
 
 func Run(r *ev.Run) {
-	r.Rule("E4 histories of publishes on a fresh publisher + in-memory Cloudflare fake: initial value of the first record over 8 parameter strings (empty, no ech, ech first/middle/last, two ech entries, already current quoted/unquoted), zone on one page or spread over three pages (48 records); calls = (target list over {r1, r2, missing record, unknown zone, record of a second zone} incl. duplicates, config list L1/L2); ALL histories of <=2 calls with lists of length <=2 (thorough <=3) and ALL histories of 3 calls with lists of length <=1; E2: a single API failure {HTTP 400, success:false, malformed JSON} at every request index of every call (1-call and 2-call histories). A map-based model predicts each status; store and request log are checked after each call. distinct = distinct scenarios")
-	r.Assume("parameter values contain no spaces (the publisher splits on single spaces)", "a record that already carries several ech entries whose last one is current is outside the alphabet",
+	r.Rule("E4 histories of publishes on a fresh publisher + in-memory Cloudflare fake: initial value of the first record over 9 parameter strings (empty, no ech, ech first/middle/last, two ech entries, already current quoted/unquoted, a tab inside a quoted value with double blanks between parameters), zone on one page or spread over three pages (48 records); calls = (target list over {r1, r2, missing record, unknown zone, record of a second zone} incl. duplicates, config list L1/L2); ALL histories of <=2 calls with lists of length <=2 (thorough <=3) and ALL histories of 3 calls with lists of length <=1; E2: a single API failure {HTTP 400, success:false, malformed JSON} at every request index of every call (1-call and 2-call histories). A map-based model predicts each status; store and request log are checked after each call. distinct = distinct scenarios")
+	r.Assume("parameter values contain no blanks (the publisher splits on single spaces); tabs inside quoted values and runs of blanks between parameters are in the alphabet", "a record that already carries several ech entries whose last one is current is outside the alphabet",
 		"the fake API follows Cloudflare v4 list semantics: result_info.count is the number of items on the page, total_count the total")
 	maxList := 2
 	if r.Thorough() {
